@@ -34,9 +34,10 @@ def gen_cases(tier: str, seed: int) -> List[Dict[str, Any]]:
         cases.append({"kind": "prog", "seed": derive_seed(seed, PROPERTY, i) % (2**31),
                       "profile": {"dtype": "float64", "max_ops": rng.choice([3, 6, 10, 16]), "residual": rng.choice([0, 1, 2, 2, 3, 4]),
                                   "forms": [f for f in FORMS if rng.random() < 0.6], "loss": rng.random() < 0.3, "extras": rng.random() < 0.3}})
-    for i in range(8 if tier == "quick" else 100):
-        cases.append({"kind": "replace", "seed": derive_seed(seed, PROPERTY, "rep", i) % (2**31)})
-    return cases
+    reps = [{"kind": "replace", "seed": derive_seed(seed, PROPERTY, "rep", i) % (2**31)} for i in range(32 if tier == "quick" else 160)]
+    # replacement cases are spread at the FRONT of the case list: every worker runs some of them before its ordinary programs,
+    # so that state leaking from a user's `replace=` into later unit_scale() calls would be seen
+    return reps + cases
 
 
 def _named(m) -> Dict[str, Any]:
